@@ -14,8 +14,10 @@ from .c02 import _is_root_clone
 EXPLANATION = ("C01: CUT/PROV rules on the emulated walk: '..' at the root clamps (no open, dirfd reset to the root clone); an "
                "absolute link target restarts at the root clone with the lexical position reset; every queue growth lies "
                "behind the counter increment and the budget test whose exhaustion returns ELOOP (ranking argument); the empty "
-               "component is opened as '.'; both trailing-symlink modes and NO_SYMLINKS are honoured by both backends; kernel "
-               "lookups carry RESOLVE_IN_ROOT|NO_MAGICLINKS; the budget constant is compared with the kernel's.")
+               "component is opened as '.'; both trailing-symlink modes and NO_SYMLINKS are honoured by both backends, and the "
+               "no-follow exit for a final symlink precedes the NO_SYMLINKS refusal (the kernel refuses links only when it follows "
+               "them); kernel lookups carry RESOLVE_IN_ROOT|NO_MAGICLINKS and the emulated walk refuses absolute link bodies read on "
+               "procfs with ELOOP before they reach the queue; the budget constant is compared with the kernel's.")
 ASSUMPTIONS = ["kernel reference: RESOLVE_IN_ROOT clamps '..' and absolute links at the root; MAXSYMLINKS = 40; openat2 returns ENOENT for an empty path",
                "equality of outcomes with the kernel for concrete trees is not decided (it is a differential, value-level statement)"]
 
@@ -272,6 +274,7 @@ def r5_modes_honoured(ctx):
     b, cfg, opens, loops = _walk(ctx)
     # emulated: no_follow_trailing (param 4) is branched on inside the loop
     used = False
+    nft_sw, len_sw = [], []
     for blk in b.blocks:
         if blk.cleanup or blk.term.kind != "switch":
             continue
@@ -281,8 +284,41 @@ def r5_modes_honoured(ctx):
         for o in T.origins(b, blk.idx, len(blk.stmts), d.place):
             if o.kind == "param" and o.detail == 4:
                 used = True
+                nft_sw.append(blk.idx)
+            elif o.kind == "call" and (o.callee or "").startswith("std::collections::VecDeque") and (o.callee or "").rsplit("::", 1)[-1] in ("is_empty", "len"):
+                len_sw.append(blk.idx)
     (out.append(holds("C01.R5", "do_resolve:no_follow_trailing", b.where(), "emulated walk branches on no_follow_trailing")) if used else
      out.append(violated("C01.R5", "do_resolve:no_follow_trailing", b.where(), "emulated walk ignores no_follow_trailing")))
+    # ... and the trailing-symlink exit is taken BEFORE the NO_SYMLINKS refusal: the kernel refuses a link only when it
+    # is about to follow it (pick_link), so O_PATH|O_NOFOLLOW on a final symlink succeeds under RESOLVE_NO_SYMLINKS.
+    # Gate = the no_follow_trailing switch and the queue-emptiness switch next to it; with the gate's fall-through
+    # (false) edges cut, the NO_SYMLINKS test must be unreachable.
+    if used:
+        def straight(frm, to, n=4):
+            while n and frm is not None:
+                if frm == to:
+                    return True
+                es = [e for e in cfg.succ.get(frm, []) if e.label not in ("unwind",)]
+                frm = es[0].dst if len(es) == 1 else None
+                n -= 1
+            return False
+        gate = set(nft_sw)
+        for q in set(len_sw):
+            for g in nft_sw:
+                if any(straight(e.dst, g) for e in cfg.succ.get(q, [])) or any(straight(e.dst, q) for e in cfg.succ.get(g, [])):
+                    gate.add(q)
+        cut = [e.key() for g in gate for e in cfg.succ.get(g, []) if e.label == ("sw", 0)]
+        nosym = []
+        for t in b.calls():
+            if t.callee and t.callee.endswith("ResolverFlags>::contains") and [o.const_int() for o in T.origins_of_arg(t, 1)] == [RESOLVE_NO_SYMLINKS]:
+                nosym.append(t)
+        if nosym:
+            reach = cfg.reachable(cfg.entry, cut_edges=cut)
+            bad = [t for t in nosym if t.bb in reach]
+            (out.append(violated("C01.R5", "do_resolve:nofollow-exit-before-no-symlinks", bad[0].where(),
+                                 "NO_SYMLINKS refuses a trailing symlink that no_follow_trailing asked to be returned unfollowed (the kernel refuses links only when following them)")) if bad else
+             out.append(holds("C01.R5", "do_resolve:nofollow-exit-before-no-symlinks", nosym[0].where(),
+                              "the no_follow_trailing exit precedes the NO_SYMLINKS refusal (gate switches: %d)" % len(gate))))
     # the emulated one-shot open derives the lookup mode from O_NOFOLLOW alone and applies the caller's flags
     from .c04 import r5_oneshot_emulation, r6_component_queue
     out.extend(r5_oneshot_emulation(ctx, "C01.R5"))
@@ -315,12 +351,103 @@ def r5_modes_honoured(ctx):
     return out
 
 
+PROC_SUPER_MAGIC = 0x9fa0
+
+
+def _words(raw):
+    """integers stored in an escaped constant blob, read as native 8- and 4-byte little-endian words"""
+    import codecs
+    try:
+        bs = codecs.decode(raw, "unicode_escape").encode("latin1")
+    except Exception:
+        return set()
+    out = set()
+    for w in (8, 4):
+        if len(bs) % w == 0:
+            out |= {int.from_bytes(bs[i:i + w], "little") for i in range(0, len(bs), w)}
+    return out
+
+
+def emulated_no_magiclinks(ctx, rid="C01.R6"):
+    """The kernel lookups carry RESOLVE_NO_MAGICLINKS; the emulated walk has to refuse the same links itself: an
+    absolute link body read on a magic-link filesystem (procfs) ends in ELOOP and is never spliced into the queue."""
+    F = ctx.facts
+    T = ctx.tracer
+    out = []
+    b, cfg, opens, loops = _walk(ctx)
+    pre = list(b.calls("utils::path::RawComponents::<'_>::prepend"))
+    rl = list(b.calls("syscalls::readlinkat"))
+    probes = [t for t in b.calls() if (t.callee or "").endswith("::is_magiclink_filesystem")]
+    key = "do_resolve:emulated-no-magiclinks"
+    if not probes or not pre or not rl:
+        return [violated(rid, key, b.where(), "the emulated walk never asks whether a link lives on a magic-link filesystem before following it")]
+    on_next = [t for t in probes if any(o.kind == "call" and o.term in opens for o in T.origins_of_arg(t, 0))]
+    if not on_next:
+        return [violated(rid, key, probes[0].where(), "the magic-link filesystem probe is not made on the component that was just opened")]
+    # switches on the probe's boolean payload
+    msw = []
+    for blk in b.blocks:
+        if blk.cleanup or blk.term.kind != "switch":
+            continue
+        d = Operand(blk.term.raw["d"])
+        if d.place is None:
+            continue
+        if any(o.kind == "call" and o.term in on_next and o.fpath for o in T.origins(b, blk.idx, len(blk.stmts), d.place)):
+            msw.append(blk.idx)
+    abs_tests = []
+    for t in b.calls("std::path::Path::is_absolute"):
+        if any(x.kind == "call" and x.term in rl for x in T.origins_of_arg(t, 0)):
+            be = bool_edges(b, t)
+            if be:
+                abs_tests.append(be)
+    if not msw or not abs_tests:
+        return [violated(rid, key, on_next[0].where(), "the result of the magic-link probe (or the absolute-body test) is not branched on")]
+    cut = [e.key() for be in abs_tests for e in be["false"]]
+    cut += [e.key() for g in msw for e in cfg.succ.get(g, []) if e.label == ("sw", 0)]
+    reach = cfg.reachable(cfg.entry, cut_edges=cut)
+    # spliced = the queue grows and the walk goes on with it (a growth that can only be followed by the error return is harmless)
+    spliced = [p for p in pre if p.bb in reach and any(h in cfg.reachable(p.bb, cut_edges=cut) for h in loops)]
+    refusal = cfg.edge_targets_reachable([e for g in msw for e in cfg.succ.get(g, []) if e.label != ("sw", 0)], cut_nodes=list(loops))
+    errs = {o.const_int(True) for c in b.calls("std::io::Error::from_raw_os_error") if c.bb in refusal for o in T.origins_of_arg(c, 0)}
+    # first absolute test on the body must be the one guarding the probe: the probe is reached only on its true edge
+    guarded = all(t.bb not in cfg.reachable(cfg.entry, cut_edges=[e.key() for be in abs_tests[:1] for e in be["true"]]) for t in on_next)
+    if spliced:
+        out.append(violated(rid, key, spliced[0].where(), "an absolute link body read on a magic-link filesystem can be spliced into the walk (RESOLVE_NO_MAGICLINKS not emulated)"))
+    elif errs != {ELOOP}:
+        out.append(violated(rid, key, on_next[0].where(), "the magic-link refusal does not end in ELOOP (errnos %s)" % sorted(x for x in errs if x is not None)))
+    else:
+        out.append(holds(rid, key, on_next[0].where(), "absolute body on a magic-link filesystem -> ELOOP before the queue grows%s" % ("" if guarded else " (probe also made for relative bodies)")))
+    # the filesystem table names procfs
+    vals = set()
+    impls = [x for x in F.bodies if "is_magiclink_filesystem" in x.path or x.path.endswith("::DANGEROUS_FILESYSTEMS")]
+    for ib in impls:
+        for blk in ib.blocks:
+            for s in blk.stmts:
+                if s.kind != "assign":
+                    continue
+                for o in s.rv_operands():
+                    if o.is_const:
+                        raw = o.const.get("bytes")
+                        if raw is not None:
+                            vals |= _words(raw)
+                        elif o.int_value() is not None:
+                            vals.add(o.int_value())
+            if blk.term.kind == "switch":
+                vals |= {v for v in blk.term.raw.get("vals", []) if isinstance(v, int)}
+    k2 = "is_magiclink_filesystem:procfs"
+    where = impls[0].where() if impls else b.where()
+    (out.append(holds(rid, k2, where, "the magic-link filesystem table contains PROC_SUPER_MAGIC")) if PROC_SUPER_MAGIC in vals else
+     out.append(violated(rid, k2, where, "procfs (0x9fa0) is not among the filesystems whose absolute links the emulated walk refuses")))
+    return out
+
+
 def r6_kernel_mask(ctx):
     out = []
     for i in c05.r4_resolve_masks(ctx):
         if "resolvers::openat2::" in i.key:
             i.rule = "C01.R6"
             out.append(i)
+    out.extend(emulated_no_magiclinks(ctx))
     return out
 
 
